@@ -1247,6 +1247,46 @@ where
 
     fn next(&mut self) -> Option<Self::Item> {
         let token = self.inner_next();
+        #[cfg(rustpython_parser_verif)]
+        rustpython_parser_core::verif_trace::emit(|| {
+            let state = format!(
+                "\"nesting\":{},\"depth\":{},\"bol\":{},\"pending\":{},\"loc\":{}",
+                self.nesting,
+                self.indentations.indent_stack.len(),
+                self.at_begin_of_line,
+                self.pending.len(),
+                self.location.to_u32()
+            );
+            match &token {
+                Ok((tok, range)) => {
+                    let dbg = format!("{tok:?}");
+                    let kind: String = dbg
+                        .chars()
+                        .take_while(|c| c.is_ascii_alphanumeric())
+                        .collect();
+                    format!(
+                        "{{\"ev\":\"tok\",\"k\":\"{}\",\"s\":{},\"e\":{},{}}}",
+                        kind,
+                        range.start().to_u32(),
+                        range.end().to_u32(),
+                        state
+                    )
+                }
+                Err(e) => {
+                    let dbg = format!("{:?}", e.error);
+                    let kind: String = dbg
+                        .chars()
+                        .take_while(|c| c.is_ascii_alphanumeric())
+                        .collect();
+                    format!(
+                        "{{\"ev\":\"err\",\"k\":\"{}\",\"at\":{},{}}}",
+                        kind,
+                        e.location.to_u32(),
+                        state
+                    )
+                }
+            }
+        });
         trace!(
             "Lex token {:?}, nesting={:?}, indent stack: {:?}",
             token,
